@@ -117,3 +117,58 @@ def prefix_free(paths):
             out.append(p)
             seen.append(s)
     return out
+
+
+# ---------------------------------------------------------------------------
+# result values for codec round trips (looked up by tag from generated / check functions; this
+# module is never accepted, so dds treats these helpers as external names)
+
+
+def _frame(kind):
+    import pandas as pd
+
+    if kind == 0:
+        return pd.DataFrame({"x": [1, 2, 3], "y": ["a", "é", ""]})
+    return pd.DataFrame({"x": []})
+
+
+def result_values():
+    vals = [
+        ("str_ascii", "plain text"),
+        ("str_empty", ""),
+        ("str_nonascii", "héllo wörld 中文 \U0001F600"),
+        ("str_newlines", "a\r\nb\nc\r"),
+        ("bytes_plain", b"\x00\x01binary\xff"),
+        ("bytes_empty", b""),
+        ("bytes_all", bytes(range(256))),
+        ("none", None),
+        ("int", 12345678901234567890),
+        ("float", 1.5),
+        ("nested", {"a": [1, (2, 3)], "b": None}),
+        ("obj", Obj("custom")),
+        ("bool", True),
+    ]
+    return vals
+
+
+def result_value(tag):
+    if tag == "frame0":
+        return _frame(0)
+    if tag == "frame1":
+        return _frame(1)
+    if tag == "str_big":
+        return "é" * (1 << 19)
+    if tag == "bytes_big":
+        return bytes(range(256)) * 4096
+    return dict(result_values())[tag]
+
+
+def values_equal(a, b):
+    try:
+        import pandas as pd
+
+        if isinstance(a, pd.DataFrame) or isinstance(b, pd.DataFrame):
+            return isinstance(a, pd.DataFrame) and isinstance(b, pd.DataFrame) and a.equals(b)
+    except ImportError:
+        pass
+    return type(a) is type(b) and a == b
